@@ -1,7 +1,7 @@
 //! C18 replay (needs feature `hooks`): queue pops of RankCalc::calc on complete DAGs vs the bound n*n+n, and the
 //! wall time of build() on layered and dense graphs of a few dozen functions (the statement's "build promptly"):
-//! each build runs on a worker thread with a 30 s budget; on the unchanged tree these builds take milliseconds, a
-//! build whose work follows the number of paths (3^15 for the largest graph) does not come back.
+//! each build runs on a worker thread with a 20 s budget; on the unchanged tree these builds take milliseconds, a
+//! build whose work follows the number of paths (3^17, 4^13, 2^27 for the largest graphs) does not come back.
 use fn_graph::FnGraphBuilder;
 use fn_graph_replay::*;
 
@@ -27,7 +27,7 @@ fn main() {
             let _ = g;
         }
         // layered graphs: `layers` layers of `width` functions, every function connected to every function of the next layer
-        for (width, layers) in [(2usize, 8usize), (3, 8), (3, 12), (4, 12), (3, 16), (2, 24)] {
+        for (width, layers) in [(2usize, 8usize), (3, 8), (3, 12), (4, 12), (2, 24), (3, 18), (4, 14), (2, 28)] {
             let n = width * layers;
             let (tx, rx) = std::sync::mpsc::channel();
             let t0 = std::time::Instant::now();
@@ -39,18 +39,18 @@ fn main() {
                 let g = b.build();
                 let _ = tx.send((fn_graph::verif_hooks::rank_calc_pops(), g.ranks().iter().map(|r| r.0).collect::<Vec<_>>()));
             });
-            match rx.recv_timeout(std::time::Duration::from_secs(30)) {
+            match rx.recv_timeout(std::time::Duration::from_secs(20)) {
                 Ok((pops, ranks)) => {
                     if pops > n * n + n { println!("VIOLATION: layered {width}x{layers}: {pops} pops > n*n+n"); std::process::exit(1); }
                     if ranks != (0..n).map(|i| i / width).collect::<Vec<_>>() { println!("VIOLATION: layered {width}x{layers}: ranks {ranks:?}"); std::process::exit(1); }
                 }
                 Err(_) => {
-                    println!("VIOLATION: build() of the layered graph {width}x{layers} ({n} functions, {} edges) did not finish within 30 s (elapsed {:?}): its work is not polynomial in functions and edges", (layers - 1) * width * width, t0.elapsed());
+                    println!("VIOLATION: build() of the layered graph {width}x{layers} ({n} functions, {} edges) did not finish within 20 s (elapsed {:?}): its work is not polynomial in functions and edges", (layers - 1) * width * width, t0.elapsed());
                     std::process::exit(1);
                 }
             }
         }
-        println!("OK: pops within n*n+n on complete DAGs n=2..14; layered graphs up to 48 functions build within the budget");
+        println!("OK: pops within n*n+n on complete DAGs n=2..14; layered graphs up to 56 functions build within the budget");
     }
     #[cfg(not(feature = "hooks"))]
     println!("built without hooks");
